@@ -76,15 +76,6 @@ def run(ctx):
                           "the vote-free win is decided by `%s`, whose whole call closure (%d fns) reads only construction-time fields %s "
                           "and never the live membership table: a node that started alone and was expanded still elects itself without votes"
                           % (name, len(fns), frozen), loc(mb, bi))
-    # C03-b supporting evidence: the leader-side 'alone' flag is derived from voters()
-    cm = [b for b in F.find(r"LeaderState.*::(init_cluster_metadata|update_cluster_metadata)") if b.parent is None]
-    for b in cm:
-        mbb = F.main_body(b)
-        for (bi, si, st) in agg_sites(mbb, "ClusterMetadata"):
-            o = agg_field(st, "single_voter")
-            if o is None:
-                continue
-            s = Slice(F, mbb).operand(o)
-            ctx.check("C03-b", "%s#single_voter" % fkey(b), s.has_call(r"Membership::voters$"),
-                      "leader-side single_voter derives from Membership::voters()",
-                      "ClusterMetadata.single_voter does not derive from Membership::voters(): %s" % sorted(s.sources)[:6], loc(mbb, bi))
+    # C03-b supporting evidence: the leader-side 'alone' flag is derived from voters() at EVERY place that gives it a value
+    from .c09 import single_voter_sites
+    single_voter_sites(ctx, "C03-b")
